@@ -90,6 +90,9 @@ func (priv *PrivateKey) FromECPrivateKey(key *ecdsa.PrivateKey) (*PrivateKey, er
 	}
 	// Copy the ECDSA private key fields to the SM2 private key
 	priv.PrivateKey = *key
+	// The receiver may have signed with its previous key: drop the cached inverse of (d+1).
+	priv.inverseOfKeyPlus1 = nil
+	priv.inverseOfKeyPlus1Once = sync.Once{}
 	return priv, nil
 }
 
